@@ -269,6 +269,9 @@ PROPS["C15"] = {
         K("BYE reason length octet (300 B text)", "c15_bye_reason_length_300", "quick", "bounded", ["build_goodbye_body"], "same law for the BYE reason", bound="reason 300 bytes", module=RM, timeout=600),
         K("set_extension keeps other ids (4 B block)", "c15_set_keeps_other_extension_4", "thorough", "bounded", ["RtpHeader::set_extension", "RtpHeader::get_extension"],
           "every other extension id reads back unchanged after stamping one", bound="received block of 4 symbolic bytes (well-formed by assumption), 1-byte value", module=RM, timeout=1500),
+        K("RtpHeader::parse∘write_to (4-byte extension)", "c15_header_parse_of_write_ext4", "quick", "bounded", ["RtpHeader::parse", "RtpHeader::write_to"],
+          "parsing what write_to emitted recovers marker, payload type, sequence number, timestamp, ssrc, extension profile and data; cursor consumed exactly",
+          bound="no CSRC, extension data 4 bytes, parsed from &[u8]", module=RM),
         K("canary: report block inverse without clamping", "canary_report_block_unclamped", "quick", "canary", ["build_report_block"], "false claim, must FAIL", expect="fail", module=RM),
     ],
 }
@@ -345,6 +348,7 @@ PROPS["C07"] = {
         + _c07(["c07_finished_12"], HM2, "Finished::decode", "Finished::decode")
         + _c07(["c07_hs_msg_0", "c07_hs_msg_11", "c07_hs_msg_12", "c07_hs_msg_16"], HM2, "HandshakeMessage::decode", "HandshakeMessage::decode")
         + _c07(["c07_record_0", "c07_record_12", "c07_record_13", "c07_record_14", "c07_record_20"], RCM, "DtlsRecord::decode", "DtlsRecord::decode")
+        + _c07(["c07_rtp_header_parse_0", "c07_rtp_header_parse_11", "c07_rtp_header_parse_12"], RM, "RtpHeader::parse", "RtpHeader::parse (over &[u8])")
         + _c07(["c07_parse_sr_0", "c07_parse_sr_24", "c07_parse_sr_52"], RM, "parse_sender_report", "parse_sender_report")
         + _c07(["c07_parse_rr_3", "c07_parse_rr_28"], RM, "parse_receiver_report", "parse_receiver_report")
         + _c07(["c07_parse_psfb_16", "c07_parse_psfb_24"], RM, "parse_rtcp_psfb", "parse_rtcp_psfb")
